@@ -283,6 +283,12 @@ func domainOf(t reflect.Type) []reflect.Value {
 }
 
 func replayCase(cs Case) string {
+	if cs.Part == "formatted" {
+		return replayFormatted(cs)
+	}
+	if cs.Part == "wide" {
+		return replayWide(cs)
+	}
 	if cs.Part != "universe" {
 		return ""
 	}
@@ -359,6 +365,8 @@ func Run(r *evid.Run) {
 	})
 	r.Sample(Case{Part: "universe", Type: "map[string]jsontext.Value", OptSet: "default", Entry: "MarshalEncode(member value)", Detail: `{"k": jsontext.Value("{\"a\":1,\"a\":2}")}`})
 	r.Bound("type universe: %d types (depth %d + hand-picked adversarial types) x value domains x %d option sets x %d entry points", len(ts), depth, len(sets), len(entryNames))
+	formatted(r)
+	wideUser(r)
 	userOutputs(r)
 	c17.MarshalPolicing(r, "c02")
 	r.Outcomes(map[string]int64{"nil error: output validated": nOK.Load(), "error returned": nErr.Load()})
